@@ -757,3 +757,248 @@ def naming_families():
     for m in ((sq[:, 0] > 10), (sq[:, 0] > 20), (sq[:, 0] < 15)):
         add("mask", str(m.astype(int).tolist()), lambda m=m: (da.from_array(sq, chunks=(3, 3))[da.from_array(m, chunks=3)], sq[m], None))
     return fam
+
+
+# ---------------------------------------------------------------------------
+# C01: generated programs (random compositions of the public API against NumPy)
+# ---------------------------------------------------------------------------
+def _gen_chunks(rnd, shape):
+    out = []
+    for n in shape:
+        if n == 0:
+            out.append((0,))
+            continue
+        kind = rnd.random()
+        if kind < 0.2:
+            out.append((n,))
+        elif kind < 0.4:
+            out.append((1,) * n)
+        else:
+            sizes = []
+            left = n
+            while left > 0:
+                c = rnd.randint(1, max(1, min(left, 4)))
+                sizes.append(c)
+                left -= c
+            out.append(tuple(sizes))
+    return tuple(out)
+
+
+def _gen_ops():
+    """(name, applicable(a), dask_fn(x, a, rnd) -> collection, numpy_fn(a, rnd) -> ndarray); both fns draw the same random
+    choices because they are called with random generators in the same state"""
+    import numpy as np
+    import dask_array as da
+    swv = np.lib.stride_tricks.sliding_window_view
+
+    def rslice(rnd, n):
+        k = rnd.random()
+        if n == 0 or k < 0.15:
+            return slice(None)
+        if k < 0.3:
+            return rnd.randrange(-n, n)
+        a, b = rnd.randint(-n - 1, n + 1), rnd.randint(-n - 1, n + 1)
+        st = rnd.choice([1, 1, 1, 2, 3, -1, -2])
+        return slice(a if rnd.random() < 0.8 else None, b if rnd.random() < 0.8 else None, st)
+
+    def index(rnd, shape):
+        idx = [rslice(rnd, n) for n in shape]
+        if rnd.random() < 0.2 and idx:
+            idx.insert(rnd.randrange(len(idx) + 1), None)
+        if rnd.random() < 0.15 and len(idx) > 1:
+            i = rnd.randrange(len(idx))
+            idx[i:] = [Ellipsis]
+        return tuple(idx)
+
+    def axis(rnd, nd):
+        return rnd.randrange(nd)
+
+    def axes(rnd, nd):
+        k = rnd.random()
+        if k < 0.3:
+            return None
+        if k < 0.8 or nd == 1:
+            return rnd.randrange(nd)
+        return tuple(sorted(rnd.sample(range(nd), rnd.randint(1, nd))))
+
+    ops = []
+
+    def op(name, applicable, dfn, nfn):
+        ops.append((name, applicable, dfn, nfn))
+    num = lambda a: a.dtype.kind in "fiu"
+    flt = lambda a: a.dtype.kind == "f"
+    nd1 = lambda a: a.ndim >= 1
+    nonempty = lambda a: a.size > 0
+    op("add-scalar", num, lambda x, a, r: x + r.choice([1, 2.5, -3]), lambda a, r: a + r.choice([1, 2.5, -3]))
+    op("mul-self", num, lambda x, a, r: x * x, lambda a, r: a * a)
+    op("neg", num, lambda x, a, r: -x, lambda a, r: -a)
+    op("abs-sqrt", num, lambda x, a, r: da.sqrt(abs(x)), lambda a, r: np.sqrt(abs(a)))
+    op("astype", lambda a: a.dtype.kind in "fiub", lambda x, a, r: x.astype(r.choice(["f4", "f8", "i8", "i4"])), lambda a, r: a.astype(r.choice(["f4", "f8", "i8", "i4"])))
+    op("clip", num, lambda x, a, r: da.clip(x, 1, 5), lambda a, r: np.clip(a, 1, 5))
+    op("compare", num, lambda x, a, r: x > r.choice([0, 3, 7]), lambda a, r: a > r.choice([0, 3, 7]))
+    op("where", num, lambda x, a, r: da.where(x > 3, x, -x), lambda a, r: np.where(a > 3, a, -a))
+    op("add-first-row", lambda a: num(a) and a.ndim >= 2 and a.shape[0] > 0, lambda x, a, r: x + x[0], lambda a, r: a + a[0])
+    op("mul-last-col", lambda a: num(a) and a.ndim >= 2 and a.shape[-1] > 0, lambda x, a, r: x * x[..., -1:], lambda a, r: a * a[..., -1:])
+    op("maximum-T", lambda a: num(a) and a.ndim == 2 and a.shape[0] == a.shape[1], lambda x, a, r: da.maximum(x, x.T), lambda a, r: np.maximum(a, a.T))
+    op("index", lambda a: True, lambda x, a, r: x[index(r, a.shape)], lambda a, r: a[index(r, a.shape)])
+    op("transpose", lambda a: a.ndim >= 2, lambda x, a, r: x.transpose(_perm(r, a.ndim)), lambda a, r: a.transpose(_perm(r, a.ndim)))
+    op("swapaxes", lambda a: a.ndim >= 2, lambda x, a, r: da.swapaxes(x, 0, a.ndim - 1), lambda a, r: np.swapaxes(a, 0, a.ndim - 1))
+    op("flip", nd1, lambda x, a, r: da.flip(x, axis(r, a.ndim)), lambda a, r: np.flip(a, axis(r, a.ndim)))
+    op("roll", nd1, lambda x, a, r: da.roll(x, r.randint(-3, 3), axis=axis(r, a.ndim)), lambda a, r: np.roll(a, r.randint(-3, 3), axis=axis(r, a.ndim)))
+    op("ravel", lambda a: True, lambda x, a, r: x.ravel(), lambda a, r: a.ravel())
+    op("reshape-merge", lambda a: a.ndim >= 2, lambda x, a, r: x.reshape((-1,) + a.shape[2:]), lambda a, r: a.reshape((-1,) + a.shape[2:]))
+    op("reshape-split", lambda a: a.ndim >= 1 and a.shape[0] % 2 == 0 and a.shape[0] > 0, lambda x, a, r: x.reshape((2, -1) + a.shape[1:]), lambda a, r: a.reshape((2, -1) + a.shape[1:]))
+    op("expand_dims", lambda a: a.ndim <= 3, lambda x, a, r: da.expand_dims(x, r.randrange(a.ndim + 1)), lambda a, r: np.expand_dims(a, r.randrange(a.ndim + 1)))
+    op("squeeze", lambda a: 1 in a.shape, lambda x, a, r: da.squeeze(x), lambda a, r: np.squeeze(a))
+    op("rechunk", nd1, lambda x, a, r: x.rechunk(_gen_chunks(r, a.shape)), lambda a, r: (_gen_chunks(r, a.shape), a)[1])
+    for red in ("sum", "mean", "max", "min", "std", "var", "prod", "any", "all"):
+        def dfn(x, a, r, red=red):
+            ax = axes(r, a.ndim)
+            kd = r.random() < 0.3
+            return getattr(da, red)(x, axis=ax, keepdims=kd)
+
+        def nfn(a, r, red=red):
+            ax = axes(r, a.ndim)
+            kd = r.random() < 0.3
+            return getattr(np, red)(a, axis=ax, keepdims=kd)
+        op(red, (lambda a, red=red: a.ndim >= 1 and a.dtype.kind in "fiub" and (a.size > 0 or red in ("sum", "prod", "any", "all")) and
+                 (red not in ("max", "min", "mean", "std", "var") or all(n > 0 for n in a.shape))), dfn, nfn)
+    op("argmax", lambda a: nd1(a) and nonempty(a) and a.dtype.kind in "fiu" and all(n > 0 for n in a.shape), lambda x, a, r: da.argmax(x, axis=axis(r, a.ndim)), lambda a, r: np.argmax(a, axis=axis(r, a.ndim)))
+    op("cumsum", lambda a: nd1(a) and num(a), lambda x, a, r: da.cumsum(x, axis=axis(r, a.ndim)), lambda a, r: np.cumsum(a, axis=axis(r, a.ndim)))
+    op("cumprod", lambda a: nd1(a) and flt(a), lambda x, a, r: da.cumprod(x / 4, axis=axis(r, a.ndim)), lambda a, r: np.cumprod(a / 4, axis=axis(r, a.ndim)))
+    op("concat-self", nd1, lambda x, a, r: da.concatenate([x, x * 2 if a.dtype.kind != "b" else x], axis=axis(r, a.ndim)), lambda a, r: np.concatenate([a, a * 2 if a.dtype.kind != "b" else a], axis=axis(r, a.ndim)))
+    op("stack-self", lambda a: a.ndim <= 3, lambda x, a, r: da.stack([x, x], axis=r.randrange(a.ndim + 1)), lambda a, r: np.stack([a, a], axis=r.randrange(a.ndim + 1)))
+    op("take", lambda a: nd1(a) and nonempty(a), lambda x, a, r: _take(da, x, a, r), lambda a, r: _take(np, a, a, r))
+    op("mask-select", lambda a: a.ndim == 1 and num(a), lambda x, a, r: x[x > 3], lambda a, r: a[a > 3])
+    op("map_blocks", num, lambda x, a, r: x.map_blocks(_times3, dtype=a.dtype), lambda a, r: a * 3)
+    op("map_overlap", lambda a: a.ndim == 1 and num(a) and a.shape[0] >= 4, lambda x, a, r: x.rechunk(max(2, a.shape[0] // 2)).map_overlap(_stencil3, depth=1, boundary="periodic", dtype=a.dtype), lambda a, r: _stencil3(a))
+    op("swv-sum", lambda a: a.ndim >= 1 and num(a) and a.shape[-1] >= 3, lambda x, a, r: da.sliding_window_view(x, 3, axis=-1).sum(-1), lambda a, r: swv(a, 3, axis=-1).sum(-1))
+    op("pad", lambda a: nd1(a) and num(a) and nonempty(a), lambda x, a, r: da.pad(x, r.randint(1, 2), mode=r.choice(["edge", "constant", "reflect"]) if min(a.shape) > 1 else "edge"), lambda a, r: np.pad(a, r.randint(1, 2), mode=r.choice(["edge", "constant", "reflect"]) if min(a.shape) > 1 else "edge"))
+    op("diff", lambda a: nd1(a) and num(a) and a.shape[-1] >= 2, lambda x, a, r: da.diff(x, axis=-1), lambda a, r: np.diff(a, axis=-1))
+    op("repeat", nd1, lambda x, a, r: da.repeat(x, 2, axis=axis(r, a.ndim)), lambda a, r: np.repeat(a, 2, axis=axis(r, a.ndim)))
+    op("tile", lambda a: a.ndim <= 2, lambda x, a, r: da.tile(x, 2), lambda a, r: np.tile(a, 2))
+    op("setitem", lambda a: nd1(a) and num(a) and nonempty(a), lambda x, a, r: _setitem(x, a, r), lambda a, r: _setitem(a.copy(), a, r))
+    op("matmul-T", lambda a: a.ndim == 2 and num(a), lambda x, a, r: x @ x.T, lambda a, r: a @ a.T)
+    op("tensordot", lambda a: a.ndim == 2 and num(a), lambda x, a, r: da.tensordot(x, x.T, axes=1), lambda a, r: np.tensordot(a, a.T, axes=1))
+    op("outer", lambda a: a.ndim == 1 and num(a) and a.size <= 12, lambda x, a, r: da.outer(x, x), lambda a, r: np.outer(a, a))
+    op("topk", lambda a: a.ndim == 1 and num(a) and a.size >= 2, lambda x, a, r: da.topk(x, 2), lambda a, r: np.sort(a)[::-1][:2])
+    op("isnan-nansum", flt, lambda x, a, r: da.nansum(da.where(x > 5, np.nan, x)), lambda a, r: np.nansum(np.where(a > 5, np.nan, a)))
+    op("round", flt, lambda x, a, r: da.round(x / 3, 1), lambda a, r: np.round(a / 3, 1))
+    return ops
+
+
+def _perm(rnd, nd):
+    p = list(range(nd))
+    rnd.shuffle(p)
+    return tuple(p)
+
+
+def _times3(b):
+    return b * 3
+
+
+def _stencil3(b):
+    import numpy as np
+    return np.roll(b, 1) + b + np.roll(b, -1)
+
+
+def _smooth(b):
+    import numpy as np
+    return np.convolve(b, np.ones(3) / 3, mode="same")
+
+
+def _smooth_full(a):
+    import numpy as np
+    p = np.pad(a, 1, mode="reflect")
+    return np.convolve(p, np.ones(3) / 3, mode="same")[1:-1]
+
+
+def _take(mod, x, a, rnd):
+    ax = rnd.randrange(a.ndim)
+    n = a.shape[ax]
+    idx = [rnd.randrange(-n, n) for _ in range(rnd.randint(1, 4))]
+    return mod.take(x, idx, axis=ax)
+
+
+def _setitem(x, a, rnd):
+    n = a.shape[0]
+    lo = rnd.randrange(n)
+    x[lo: lo + 2] = 9
+    return x
+
+
+def generated_program(seed, depth=4):
+    """one random program: a base array (shape, dtype, chunking drawn from `seed`) and up to `depth` operations; returns
+    (dask collection, numpy value, description)"""
+    import random
+    import numpy as np
+    import dask_array as da
+    rnd = random.Random(seed)
+    shape = rnd.choice([(7,), (12,), (4, 5), (6, 6), (3, 4, 2), (0, 3), (1, 5), (2, 1, 6), (9,), (5, 4)])
+    dt = rnd.choice(["f8", "f8", "i8", "f4", "bool"])
+    base = (np.arange(int(np.prod(shape))).reshape(shape) * 7 % 11 - 2)
+    base = base.astype(dt) if dt != "bool" else base % 2 == 0
+    chunks = _gen_chunks(rnd, shape)
+    x = da.from_array(base, chunks=chunks)
+    a = base
+    desc = [f"from_array({shape}, {dt}, chunks={chunks})"]
+    ops = _gen_ops()
+    steps = 0
+    tries = 0
+    windowed = False
+    inexact = False
+    # results that depend on the order floating-point numbers are added / multiplied in (exact only up to rounding) ...
+    ROUNDS = {"abs-sqrt", "mean", "std", "var", "cumprod", "matmul-T", "tensordot", "outer", "sum", "prod", "cumsum", "map_overlap",
+              "swv-sum", "round", "mul-self", "mul-last-col", "isnan-nansum"}
+    # ... must not be fed to an operation that is discontinuous in its input (a comparison, a rounding, a cast to
+    # integers, an ordering): a difference in the last bit would flip the result, which the property's "within floating
+    # tolerance" does not count as a disagreement
+    JUMPS = {"compare", "where", "mask-select", "isnan-nansum", "round", "astype", "argmax", "topk", "clip", "max", "min", "maximum-T",
+             "any", "all"}
+    while steps < depth and tries < 40:
+        tries += 1
+        name, ok, dfn, nfn = rnd.choice(ops)
+        if a.ndim > 4 or a.size > 4000 or not ok(a):
+            continue
+        if inexact and name in JUMPS:
+            continue
+        if name == "prod" and a.size > 8:
+            continue        # products of many elements overflow, and inf * 0 depends on the order
+        if name in ("var", "std") and a.dtype == np.float32 and a.size and float(np.max(np.abs(a))) > 100:
+            continue        # E[x^2] - E[x]^2 in float32 on large values cancels down to the rounding of the squares
+        if name in ("reshape-merge", "reshape-split", "ravel") and windowed:
+            # a reshape of the result of a native sliding-window reduction is known finding F52 (its own contract)
+            continue
+        if name == "swv-sum":
+            # a sliding window over the result of a native sliding-window reduction is known finding F46 (its own contract,
+            # sliding_window_view[over-a-layout-drifting-input]); generated programs take at most one
+            if windowed:
+                continue
+            windowed = True
+        st = rnd.getstate()
+        try:
+            with np.errstate(all="ignore"):
+                a2 = np.asarray(nfn(a, rnd))
+        except Exception:
+            rnd.setstate(st)
+            rnd.random()
+            continue
+        end = rnd.getstate()
+        rnd.setstate(st)
+        try:
+            x = dfn(x, a, rnd)      # a refusal or failure of dask_array where NumPy computes is reported by the caller
+        except NotImplementedError as ex:
+            # a documented refusal (reshape across unevenly chunked axes, ...): leave this step out
+            rnd.setstate(end)
+            continue
+        except Exception as ex:
+            raise RuntimeError(f"{' . '.join(desc)} . {name} [input shape {a.shape}, chunks {x.chunks}]: {type(ex).__name__}: {str(ex)[:80]}") from ex
+        rnd.setstate(end)
+        a = a2
+        desc.append(name)
+        steps += 1
+        if name in ROUNDS and a.dtype.kind in "fc":
+            inexact = True
+        if any(np.isnan(s) for s in x.shape):
+            break
+    return x, a, " . ".join(desc)
